@@ -22,7 +22,15 @@ SHARD_TIMEOUT = {"quick": 600, "thorough": 7200}
 
 
 def run(ctx):
-    env = kit.Env(ctx)
+    # odd shards import the unit modules in a shuffled order: the order of neighbours in the ratio
+    # table follows declaration order and steers the depth-first path search (route choice)
+    order = None
+    if ctx.shard % 2 == 1:
+        from .. import boot as B
+        order = list(B.ALL_MODULES)
+        ctx.rng.shuffle(order)
+        ctx.count("shards_with_shuffled_import_order")
+    env = kit.Env(ctx, order=order)
     mon = convmon.ConvertMonitor(env, ctx)
     conv = env.conv
     watch = kit.LineWatch(ctx, [
@@ -35,7 +43,7 @@ def run(ctx):
     pools, mdl, rng = env.pools, env.mdl, ctx.rng
     if ctx.shard == 0:
         witnesses(ctx, env, mon)
-    n = ctx.scale(6000, 1_000_000)
+    n = ctx.scale(16000, 1_000_000)
     plans = set()
     modules_hit = {}
     unit_mod = {}
@@ -81,7 +89,7 @@ def run(ctx):
     ctx.extra["functions_never_entered"] = watch.never_entered()
 
     # (b) synthetic, exactly consistent systems in fresh processes
-    nsys = ctx.scale(120, 4000)
+    nsys = ctx.scale(160, 4000)
     synth.run_systems(ctx, nsys, mode="c04")
 
 
